@@ -26,7 +26,8 @@ import cflib.crtp.radio_link_statistics as rls
 from cflib.crtp.crtpstack import CRTPPacket
 from cflib.drivers.crazyradio import _radio_ack
 
-FUNCTIONS = ['cflib.crtp.radiodriver:_RadioDriverThread.run', 'cflib.crtp.radiodriver:_RadioDriverThread._send_packet_safe',
+FUNCTIONS = ['cflib.drivers.crazyradio:Crazyradio.send_packet', 'cflib.crtp.radiodriver:_SharedRadio.run', 'cflib.crtp.radiodriver:_SharedRadioInstance.send_packet',
+             'cflib.crtp.radiodriver:_RadioDriverThread.run', 'cflib.crtp.radiodriver:_RadioDriverThread._send_packet_safe',
              'cflib.crtp.radiodriver:_RadioDriverThread.__init__', 'cflib.crtp.radiodriver:RadioDriver.connect',
              'cflib.crtp.radiodriver:RadioDriver.parse_uri', 'cflib.crtp.radiodriver:RadioDriver.send_packet',
              'cflib.crtp.radiodriver:RadioDriver.receive_packet', 'cflib.crtp.radiodriver:set_retries_before_disconnect',
@@ -53,7 +54,8 @@ ASSUMPTIONS = ['peer behaves as the Peer model in vf/props/c01.py (written from 
 OUTSIDE = ['more transmissions / packets than the bound; payload lengths other than the fixed 0..2 (symbolic) and 0..30 (concrete) ones',
            'exceptions raised by the USB dongle (the except arm of run() re-uses the previous ackStatus)',
            'a peer that enabled safelink while every echo was lost (host falls back to plain mode, peer then rejects frames)',
-           'preemption of the radio thread other than at the USB call; RadioManager sharing between links; rate-limit timing',
+           'preemption of the radio thread other than at the USB call; RadioManager reference counting (open/close of dongles) -- the shared '
+           'dongle thread itself is covered by shared_radio; rate-limit timing',
            'null packets handed to the application through in_queue (they are filtered out before comparing)']
 EXPLANATION = 'C01: real RadioDriver.connect + _RadioDriverThread.run executed against a safelink peer model with symbolic ' \
               'per-transmission outcomes, packet bytes, submission times, negotiation replies and retry budget.'
@@ -786,7 +788,53 @@ def h_shared_radio(sym):
 
 
 
+def h_dongle_ack(sym):
+    """Crazyradio.send_packet (USB layer): the status byte and payload the dongle returns decode to the acknowledgement the radio
+    loop judges by -- acknowledged = bit 0, power detector = bit 1, retries = high nibble, payload = the remaining bytes; a zero
+    status byte means no acknowledgement (retries = the configured maximum); a USB error means no answer (None)."""
+    import os
+    import usb
+    from cflib.drivers.crazyradio import Crazyradio
+    os.environ.pop('CRTP_PCAP_LOG', None)
+    n = sym.choice('reply_len', 5)              # 0: USB error; otherwise status byte + n-1 payload bytes
+    status = sym.int('status', 0, 255)
+    payload = [sym.int(f'p{i}', 0, 255) for i in range(max(n - 1, 0))]
+    arc = sym.int('arc', 0, 15)
+    out = [sym.int('o0', 0, 255), sym.int('o1', 0, 255)]
+    written = []
+
+    class Handle:
+        def write(self, endpoint, data, timeout):
+            written.append((endpoint, list(data)))
+
+        def read(self, endpoint, size, timeout):
+            assert endpoint == 0x81 and size >= 33
+            if n == 0:
+                raise usb.USBError('timeout')
+            return [status] + payload
+    cr = Crazyradio.__new__(Crazyradio)
+    cr.handle, cr.arc, cr.devid, cr.current_address, cr.current_channel = Handle(), arc, 0, (0xE7,) * 5, 80
+    ack = cr.send_packet(list(out))
+    assert written == [(1, out)], 'the packet is written once, unchanged, to the OUT endpoint'
+    if n == 0:
+        assert ack is None, 'a USB error is reported as "no answer"'
+        sym.goal('usb-error')
+        return
+    assert ack is not None
+    if status == 0:
+        assert ack.ack is False and ack.retry == arc and len(ack.data) == 0, 'zero status byte: not acknowledged'
+        sym.goal('not-acknowledged')
+    else:
+        assert ack.ack == (status % 2 == 1), 'acknowledged flag is bit 0 of the status byte'
+        assert ack.powerDet == ((status // 2) % 2 == 1), 'power detector flag is bit 1'
+        assert ack.retry == status // 16, 'retry count is the high nibble'
+        assert list(ack.data) == payload, 'downlink payload is everything after the status byte'
+        sym.goal('acknowledged' if status % 2 else 'status-without-ack')
+
+
+
 HARNESSES = [
+    Harness('dongle_ack', h_dongle_ack, goals=('usb-error', 'not-acknowledged', 'acknowledged', 'status-without-ack'), timeout=(120, 300)),
     Harness('shared_radio', h_shared_radio, quick=dict(calls=3), thorough=dict(calls=5), timeout=(200, 900),
             goals=('answered', 'two-links-interleaved'),
             note='two links on one dongle; which link sends and whether a timed wait runs out are solver choices'),
